@@ -32,7 +32,8 @@ def emit_and_replay(run, cfg, name, timeout):
 
 def run(tier, replay=None):
     run = C.Run(PID, tier, "model_checking")
-    cfgs = [("MC_Routing_quick.cfg", "c01_quick", 900)]
+    # (the second instance: names whose length in characters says nothing about their depth)
+    cfgs = [("MC_Routing_quick.cfg", "c01_quick", 900), ("MC_Routing_long.cfg", "c01_long", 900)]
     if tier == "thorough":
         cfgs.append(("MC_Routing_thorough.cfg", "c01_thorough", 3000))
         cfgs.append(("MC_Routing_thorough3.cfg", "c01_thorough3", 3000))
